@@ -319,6 +319,29 @@ fn clone_step<const R: usize>(max_locs: u64) {
     }
 }
 
+/// the batch forms are exactly a sequence of single recorded accesses (reset schedule included)
+fn batch<const R: usize>(max_locs: u64) {
+    let mut t = any_lfu::<R>(max_locs);
+    let mut u = t.clone();
+    let a: u64 = kani::any();
+    let b: u64 = kani::any();
+    let hashed: bool = kani::any();
+    if hashed {
+        t.increment_hashed_keys(&[a, b]);
+    } else {
+        t.increment_keys(&[&a, &b]);
+    }
+    u.increment_hashed_key(a);
+    u.increment_hashed_key(b);
+    let same = rows_eq::<R>(&rows_snapshot::<R>(&t), &rows_snapshot::<R>(&u))
+        && bits_eq(&bits_snapshot(&t), &bits_snapshot(&u))
+        && t.verif_w() == u.verif_w();
+    witness!(true, t.verif_samples() == 1, "W: a reset falls due in the middle of the batch");
+    checks! {
+        "[C11] increment_keys / increment_hashed_keys record each access exactly like a single increment (resets fall due inside the batch)" => same;
+    }
+}
+
 macro_rules! tlfu {
     ($name:ident, $r:expr, $locs:expr, $n:expr, $unw:expr) => {
         pub(crate) mod $name {
@@ -351,6 +374,11 @@ macro_rules! tlfu {
             #[kani::unwind($unw)]
             pub(crate) fn single_key() {
                 super::single_key::<$r, $n>($locs)
+            }
+            #[kani::proof]
+            #[kani::unwind($unw)]
+            pub(crate) fn batch() {
+                super::batch::<$r>($locs)
             }
             #[kani::proof]
             #[kani::unwind($unw)]
